@@ -465,6 +465,10 @@ func (e *Engine) verifyFunc(t *Target) (res *FuncResult) {
 		for _, r := range fs.Requires {
 			c.fact(sc.boolOf(r.Expr))
 		}
+		for _, d := range fs.Defines {
+			c.fact(sc.boolOf(d.Expr))
+			c.trusted["definitional axiom of a ghost function in the contract of "+t.Key+": "+oneLine(d.Src)] = true
+		}
 		for _, u := range fs.Uses {
 			c.useLemma(st, u)
 		}
